@@ -30,6 +30,7 @@ def check(reg, tier):
     _load_custom_model(reg)
     _dispersion_init(reg)
     _clone(reg)
+    _composition_frames(reg)
     # frames proved under C10/C07/C08 are part of this property as well
     c10_ids = _rerun(reg, c10._call_kernel_contract, "C10", "frame")
     c10_ids += _rerun(reg, c10._calc_theory_contract, "C10", "frame")
@@ -37,6 +38,80 @@ def check(reg, tier):
                      "MixtureKernel.Iq are discharged under C10, C07 and C08")
     reg.assume("numpy aliasing model: basic slices are views of their base, arithmetic, astype, "
                "hstack, np.array and boolean/fancy indexing produce fresh arrays")
+
+
+def _snapshot(info):
+    """Everything a later evaluation of this model reads from its ModelInfo: the attributes of every Parameter object
+    of its tables and the plain attributes of the info itself."""
+    out = {}
+    pt = info.parameters
+    seen = {}
+    for group in ("kernel_parameters", "call_parameters", "common_parameters"):
+        for p in getattr(pt, group, []) or []:
+            seen[id(p)] = p
+    for k, p in enumerate(seen.values()):
+        for a, v in sorted(vars(p).items()):
+            out["par%d(%s).%s" % (k, p.id, a)] = repr(v)
+    for a, v in sorted(vars(info).items()):
+        if isinstance(v, (str, int, float, bool, tuple, list, type(None))):
+            out["info." + a] = repr(v)
+    for a in ("npars", "nvalues", "nmagnetic", "max_pd", "theta_offset"):
+        out["table." + a] = repr(getattr(pt, a, None))
+    return out
+
+
+def _composition_frames(reg):
+    """Frame of make_product_info / make_mixture_info: building P@S, P*S or P+S leaves the ModelInfo objects of the
+    parts (which the library caches and other model objects share) exactly as they were - otherwise a model evaluated
+    after a product was built differs from the same model in a fresh process.  Run-time frame contract on the real
+    functions over every builtin form factor x structure factor pair and P+P', P*P' for a few parts."""
+    from sasmodels import core, product, mixture
+    fn = "sasmodels.product.make_product_info / sasmodels.mixture.make_mixture_info"
+    names = [n for n in core.list_models()]
+    infos = {n: core.load_model_info(n) for n in names}
+    s_names = [n for n in names if infos[n].structure_factor]
+    bad, ncalls = [], 0
+    for s in s_names:
+        for pn in names:
+            if infos[pn].structure_factor:
+                continue
+            before = (_snapshot(infos[pn]), _snapshot(infos[s]))
+            try:
+                product.make_product_info(infos[pn], infos[s])
+            except Exception:          # noqa   (combinations the library refuses are not part of the frame claim)
+                continue
+            ncalls += 1
+            after = (_snapshot(infos[pn]), _snapshot(infos[s]))
+            for which, b, a in (("P=" + pn, before[0], after[0]), ("S=" + s, before[1], after[1])):
+                diff = [(k, b.get(k), a.get(k)) for k in sorted(set(a) | set(b)) if a.get(k) != b.get(k)]
+                if diff:
+                    bad.append({"call": "make_product_info(%s, %s)" % (pn, s), "modified": which, "changes": diff[:5]})
+            if bad:
+                break
+        if bad:
+            break
+    if not bad:
+        for op in ("+", "*"):
+            for a_, b_ in (("sphere", "cylinder"), ("core_shell_sphere", "lamellar"), ("ellipsoid", "power_law")):
+                before = (_snapshot(infos[a_]), _snapshot(infos[b_]))
+                try:
+                    mixture.make_mixture_info([infos[a_], infos[b_]], operation=op)
+                except Exception:      # noqa
+                    continue
+                ncalls += 1
+                after = (_snapshot(infos[a_]), _snapshot(infos[b_]))
+                for which, b, a in ((a_, before[0], after[0]), (b_, before[1], after[1])):
+                    diff = [(k, b.get(k), a.get(k)) for k in sorted(set(a) | set(b)) if a.get(k) != b.get(k)]
+                    if diff:
+                        bad.append({"call": "make_mixture_info([%s, %s], %r)" % (a_, b_, op), "modified": which,
+                                    "changes": diff[:5]})
+    oid = "%s.composition.parts_model_info_unmodified" % PROP
+    if bad:
+        reg.fail(oid, {"replay": {"real": bad[:3], "spec": "the parts' ModelInfo and Parameter objects are unchanged"}},
+                 function=fn, engine="runtime-contract", kind="bounded")
+    else:
+        reg.passed(oid, function=fn, engine="runtime-contract", kind="bounded", backend="cpython",
+                   bound="%d compositions: every builtin form factor x structure factor pair, and 3 pairs x (+, *)" % ncalls)
 
 
 def _rerun(reg, fn, src_prop, only):
